@@ -1,12 +1,23 @@
 """C07 — sandbox-memory accesses use exactly the bytes and encoding of the sandbox ABI."""
-from . import c06
+from . import c06, c08
 PROP = "C07"
 COQ_FILES = ["Machine.v", "Conv.v", "Conv_proofs.v", "Ptr.v", "Mem.v", "Mem_proofs.v"]
-DRIVERS = [
+STATIC_DRIVERS = [
     dict(name="mem32", src="mem.cpp", defines=["VERIF_CFG=verif_cfg32"], ops=["st32", "ld32"]),
     dict(name="mem16", src="mem.cpp", defines=["VERIF_CFG=verif_cfg16"], ops=["st16", "ld16"]),
     dict(name="memw", src="mem.cpp", defines=["VERIF_CFG=verif_cfgwide"], ops=["stw", "ldw"]),
 ]
+DRIVERS = []
+
+
+def pre_generate(ctx):
+    # struct-field and whole-struct accesses go through the same store/load paths at the field offsets:
+    # the generated struct programs of C08 (layout, copy in, guest image, three read-back paths) run here too
+    c08.pre_generate(ctx)
+    del DRIVERS[:]
+    DRIVERS.extend(STATIC_DRIVERS + c08.DRIVERS)
+
+
 CFGS = {"32": dict(abi="lp32", rsize=1 << 32, committed=1 << 20, pw=4),
         "16": dict(abi="lp32", rsize=1 << 16, committed=1 << 16, pw=2),
         "w": dict(abi="wide", rsize=1 << 32, committed=1 << 20, pw=4)}
@@ -101,6 +112,7 @@ def gen_cases(tier, rng):
                         if k == "bool" or rng.random() < 0.5:
                             hb = [hexbytes(rng, k, span if k == "bool" else g)]
                         cases.append(" ".join(["ld%s" % cfg, variant, k, str(o), str(rng.randrange(256)), str(n)] + hb))
+    cases += [c for c in c08.gen_cases(tier, rng) if " byv " not in c]
     return cases
 
 
@@ -116,5 +128,5 @@ RULE = ("per guest ABI configuration (verif32: LP32-like, 4-byte pointers; verif
         "pattern or explicit boundary bit patterns, compared with the model's decoding of the guest bytes. Non-trivial: guest and application footprints differ, or the access is unaligned or "
         "ends at the edge of memory, or the store aborts.")
 TRUSTED = ["model coq/Mem.v hand-written; x86-64 little-endian object representation of the compiler is observed, not proved"]
-ASSUMPTIONS = ["bool objects in sandbox memory hold 0 or 1 (anything else is undefined behaviour in C++ before RLBox is involved)",
-               "struct-field accesses are covered under C08 (same store/load paths at the field offsets)"]
+ASSUMPTIONS = ["struct fields: through the generated struct programs shared with C08 (guest image read through an independently declared guest struct)", "bool objects in sandbox memory hold 0 or 1 (anything else is undefined behaviour in C++ before RLBox is involved)",
+]
